@@ -95,7 +95,7 @@ func runC08(c *core.Ctx) {
 	apiShadow := api + "(shadow)"
 	gen := &mediaGen{kind: kind}
 	loop := core.NewLoop(c, 400)
-	src := make([]byte, 0, 1<<16) // the ONE reusable source buffer
+	src := make([]byte, 0, 1<<18) // the ONE reusable source buffer
 	hiWater := 0
 	var outs []outstanding
 	var fp []uint64
@@ -144,6 +144,9 @@ func runC08(c *core.Ctx) {
 		// input class
 		var media []byte
 		icls := t.Weighted(6, 2, 2, 1)
+		if t.Chance(1, 2500) {
+			icls = 4 // jumbo: more than 64 KiB of input, at a tiny or a large MTU
+		}
 		switch icls {
 		case 0:
 			media = gen.next(t, genMTU)
@@ -160,6 +163,15 @@ func runC08(c *core.Ctx) {
 			if t.Bool() && len(media) > 0 {
 				media = media[:t.Intn(len(media))]
 			}
+		case 4:
+			media = gen.next(t, genMTU)
+			media = append(media, nalBody(t, 66000+t.Intn(4000))...)
+			if t.Bool() {
+				mtu = opts.minMTU() + t.Intn(3)
+			} else {
+				mtu = []int{1200, 40000, 65535}[t.Intn(3)]
+			}
+			c.Probe("jumbo-input")
 		case 3:
 			switch t.Intn(4) {
 			case 0:
